@@ -94,6 +94,7 @@ Proof.
   - injection H as E. eapply Hk. exact E.
   - injection H as E. eapply Hk. exact E.
   - injection H as E. eapply Hk. exact E.
+  - injection H as E. eapply Hk. exact E.
   - destruct (negb valid); [discriminate|]. injection H as E. eapply Hk. exact E.
 Qed.
 
@@ -218,6 +219,8 @@ Proof.
   - inversion H; subst. apply Inv_reorder. exact HI.
   - eapply Inv_optimise; eassumption.
   - eapply Inv_set_prop; eassumption.
+  - inversion H; subst. destruct HI as [HS [HG [Hso Hco]]].
+    split; [eapply SInv_same_segs; [|exact HS]; reflexivity | simpl; auto].
 Qed.
 
 Theorem Inv_run : forall ops c c', Inv c -> run_ok true ops c = true -> run true ops c = BRet c' -> Inv c'.
